@@ -6,10 +6,12 @@
    WHOLE RUNS (all six Gregory-family rules: wigm, wigm-prf, wigm-prf-batch, scotland, cfer, cfer-batch, mpls; Fixed, integer and Guarded with guard 0): in every state a count
    reaches without crashing, and in every snapshot it has recorded, tallies + non-transferable never exceed the
    ballots cast (C02_no_votes_created_whole_run; invariant and Hoare proof in Proofs/Conserve.v, ConserveCount.v).
-   The Meek family, QPQ and rational arithmetic: correspondence (values scope) + conservation oracle (_partial). *)
+   meek and warren (Fixed, integer, Guarded with any guard; strict and equal-rank ballots): every 'iterate' snapshot of a
+   whole count has tallies + residual = ballots cast, exactly (C02_meek_iterations_conserve_whole_run; Proofs/MeekRun.v).
+   meek-prf, QPQ and rational arithmetic: correspondence (values scope) + conservation oracle (_partial). *)
 From Coq Require Import ZArith List Bool String.
 From Droop Require Import Model.KernelBase Model.Arith Model.Prelude Model.State Model.Prims Model.RulesMeek Model.Election
-  Proofs.Zlike Proofs.Gregory Proofs.MeekDist Proofs.Conserve Proofs.ConserveCount.
+  Proofs.Zlike Proofs.Gregory Proofs.MeekDist Proofs.Conserve Proofs.ConserveCount Proofs.MeekRun Proofs.MeekCount.
 From Coq Require Import PArith Lia.
 Import ListNotations.
 Open Scope Z_scope.
@@ -86,3 +88,12 @@ Proof.
                    |exists (mkPcand 2 2 2 "B" "2" false false); split; [cbn; tauto|split; reflexivity]
                    |exists (mkPcand 3 3 3 "C" "3" false true); split; [cbn; tauto|split; reflexivity]]|]); contradiction.
 Qed.
+
+(* meek / warren: exact conservation at every recorded iteration of a whole count *)
+Theorem C02_meek_iterations_conserve_whole_run : forall A S (ZL : zlike A S) cfg, cf_method cfg = MMeek ->
+  forall pr fuel s k, wf_profile_m pr ->
+  exec (@crashed A) fuel (count_cmd A cfg RMeek) (init_state A cfg pr) = Some (s, k) -> k <> Abort ->
+  forall a sn, In a (actions s) -> a_tag a = TIterate -> a_snap a = Some sn ->
+  raw ZL (as_votes sn) + match as_nt sn with Some x => raw ZL x | None => 0 end = S * (ballot_total pr + eballot_total pr).
+Proof. exact count_meek_iterations. Qed.
+Print Assumptions C02_meek_iterations_conserve_whole_run.
